@@ -146,13 +146,13 @@ class HyWorld:
         self.nbuf += 1
         return self.buf(f"T{self.nbuf}")
 
-    def mkclass(self, name, fields, extra=None):
+    def mkclass(self, name, fields, extra=None, bases=None):
         I = self.I
         MH = I.global_lookup("hybrid_class", "MetaHybridClass")
         HC = I.global_lookup("hybrid_class", "HybridClass")
         data = {"_xofields": dict(fields)}
         data.update(extra or {})
-        return I.call(I.getattr(MH, "__new__"), [MH, name, (HC,), data], {})
+        return I.call(I.getattr(MH, "__new__"), [MH, name, tuple(bases) if bases else (HC,), data], {})
 
     def zoo(self):
         I = self.I
@@ -1048,6 +1048,57 @@ def run_roundtrip(model, choice, achoice=None):
     return found, None
 
 
+def run_inheritance(model):
+    """a subclass re-declaring a default, serialised AFTER an object of its base class: the elision must compare with
+    the subclass's own declared defaults (seeded C19-c memoised the table of defaults on the class with a lookup that
+    follows inheritance).  -> (discrepancies, analysis error or None)"""
+    hw = HyWorld(model)
+    I = hw.I
+    hw.numeric_views = True
+    hw.W.copy_bytes = True
+    I.modglobals.setdefault("typeutils", {})["context_default"] = Obj("context", {}, name="ctx:default")
+    found = []
+
+    def thunk():
+        F = I.global_lookup("scalar", "Float64")
+        I64 = I.global_lookup("scalar", "Int64")
+        Field = I.global_lookup("struct", "Field")
+        from ..peval import Builtin
+
+        Base = hw.mkclass("Base", {"k": F, "order": I.call(Field, [I64], {"default": 1}), "model": I.call(Field, [I64], {"default_factory": Builtin("f3", lambda: 3)})})
+        Sub = hw.mkclass("Sub", {"k": F, "order": I.call(Field, [I64], {"default": 5}), "model": I.call(Field, [I64], {"default_factory": Builtin("f7", lambda: 7)}), "slices": I.call(Field, [I64], {"default": 10})}, bases=(Base,))
+        b = I.call(Base, [], {"k": 1.5, "_buffer": hw.buf("A")})
+        db = I.call(I.getattr(b, "to_dict"), [], {})
+        if set(db) - {"__class__", "k"}:
+            found.append(f"Base(): fields equal to their declared defaults are stored: {db!r}")
+        for label, kw, own in (("Sub with the BASE class's default values", {"order": 1, "model": 3}, {"order": 1, "model": 3, "slices": 10}), ("Sub with its own defaults", {}, {"order": 5, "model": 7, "slices": 10}),
+                               ("Sub with other values", {"order": 2, "model": 4, "slices": 6}, {"order": 2, "model": 4, "slices": 6})):
+            h = I.call(Sub, [], dict(kw, k=2.5, _buffer=hw.buf("A")))
+            for nm, val in own.items():
+                if I.getattr(h, nm) != val:
+                    found.append(f"{label}: constructed with {kw} but {nm} reads {I.getattr(h, nm)!r} (own declared default / given value {val!r})")
+            d = I.call(I.getattr(h, "to_dict"), [], {})
+            dflt = {"order": 5, "model": 7, "slices": 10}
+            for nm, val in own.items():
+                if (nm in d) != (val != dflt[nm]):
+                    found.append(f"{label}: {nm} = {val!r} (declared default of Sub: {dflt[nm]!r}) is {'stored' if nm in d else 'left out'}: {d!r}")
+            re = I.call(I.getattr(Sub, "from_dict"), [d], {"_buffer": hw.buf("B")})
+            for nm, val in dict(own, k=2.5).items():
+                got = I.getattr(re, nm)
+                if got != val:
+                    found.append(f"{label}: from_dict(to_dict()) has {nm} = {got!r}, the original {val!r} (dictionary {d!r})")
+
+    try:
+        res = I.explore(thunk, max_paths=4)
+    except (AnalysisError, _Bad) as e:
+        return found, str(e)
+    if len(res) != 1:
+        return found, f"{len(res)} evaluation paths (an undecided condition): {res[0]['conds'][:2]}"
+    if res[0]["exc"] is not None:
+        return found, f"raises {res[0]['exc'].etype}: {res[0]['exc']}"
+    return found, None
+
+
 def _rt_worker(args):
     root, choices = args
     model = _model(root)
@@ -1120,3 +1171,7 @@ def jd(cx):
     for n_, c, b in sorted(other_fail)[:3]:
         cx.bad(None, construct=f"values other than default at {[('.'.join(l)) for l, o in zip(LEAVES, c) if o]}", detail=b, anchor="hybrid_class::HybridClass.from_dict", sub="roundtrip")
     cx.need(len(results) >= 20, f"only {len(results)} value assignments evaluated")
+    fi, ei = run_inheritance(m)
+    cx.recog(ei is None, None, f"JD inheritance scenario cannot be evaluated: {ei}")
+    cx.check(not fi, None, construct="Base{order=1, model=f()->3}; Sub(Base) re-declares order=5, model=f()->7, slices=10; Base() serialised first, then three Sub objects round-tripped", detail="the elision compares with the class's OWN declared defaults",
+             bad_detail=fi[0] if fi else "", anchor="hybrid_class::HybridClass.to_dict", sub="inheritance")
